@@ -467,6 +467,7 @@ def s_mod(a, b):
 class _Hooks:
     index_check = None   # callable(i, n) -> None (may raise / fork)
     on_view_write = None
+    epoch = 0
 
 
 def check_index(i, n):
@@ -553,6 +554,9 @@ class Arr:
         self.is_list = is_list
         self._view_of = weakref.ref(view_of) if view_of is not None else None
         self._views = None
+        self._born = _Hooks.epoch
+        self._nreads = 0
+        self.ident = None
         if items is not None:
             self.n = len(items)
 
@@ -583,6 +587,7 @@ class Arr:
 
     # -- reading
     def snap(self):
+        self._nreads += 1
         if self.items is not None:
             items = tuple(self.items)
             n = len(items)
@@ -695,8 +700,11 @@ class Arr:
     # -- derived arrays
     def copy(self):
         if self.items is not None:
-            return Arr(self.n, items=list(self.items), dtype=self.dtype)
-        return Arr(self.n, fn=self.fn, dtype=self.dtype)
+            r = Arr(self.n, items=list(self.items), dtype=self.dtype)
+        else:
+            r = Arr(self.n, fn=self.fn, dtype=self.dtype)
+        r.ident = self.ident
+        return r
 
     def slice(self, sl):
         a, st, ln = slice_bounds(sl, self.n)
@@ -890,6 +898,9 @@ class Arr2:
         self.fn = fn
         self.rows = rows  # list of lists when both dims concrete
         self.dtype = dtype
+        self._born = _Hooks.epoch
+        self._nreads = 0
+        self.ident = None
 
     @staticmethod
     def build(r, c, fn, dtype):
@@ -899,6 +910,7 @@ class Arr2:
         return Arr2(r, c, fn=fn, dtype=dtype)
 
     def snap(self):
+        self._nreads += 1
         if self.rows is not None:
             rows = tuple(tuple(rw) for rw in self.rows)
             R, C = len(rows), (len(rows[0]) if rows else 0)
@@ -1165,6 +1177,30 @@ class Obj:
 
     def __repr__(self):
         return "<%s object>" % self.cls.name
+
+
+class Enum:
+    """an unknown element of a finite set of Python constants (None, True, False, strings),
+    represented by an integer code (domain.code_of).  Lets one obligation cover every value
+    of attributes such as ``window``, ``detrend`` or ``scale_by_freq``."""
+
+    def __init__(self, code, note=""):
+        self.code = code
+        self.note = note
+
+    def __repr__(self):
+        return "<enum %s %r>" % (self.note, self.code)
+
+
+def enum_eq(a, b):
+    """equality between an Enum and an Enum / None / bool / str; anything else is unequal"""
+    d = dom()
+    ca = a.code if isinstance(a, Enum) else d.code_of(a)
+    if isinstance(b, Enum):
+        return s_eq(ca, b.code)
+    if b is None or isinstance(b, (bool, str)):
+        return s_eq(ca, d.code_of(b))
+    return False
 
 
 class Opaque:
